@@ -23,6 +23,9 @@ pub struct Replay {
     pub minimised_from: serde_json::Value,
     pub repo_fingerprint: String,
     pub note: String,
+    /// Execute in the dense build (basic-block edges as scheduling points).
+    #[serde(default)]
+    pub dense: bool,
 }
 
 fn method_of(v: &Violation) -> &'static str {
@@ -38,12 +41,13 @@ fn same_kind(a: &Violation, class: &str, method: &str) -> bool {
     a.class == class && (method == "?" || method_of(a) == method || class != "result-mismatch")
 }
 
-fn to_jobs(prefix: &[(u64, String)], spec: &RunSpec) -> Vec<Job> {
+fn to_jobs(prefix: &[(u64, String)], spec: &RunSpec, dense: bool) -> Vec<Job> {
     let mut jobs: Vec<Job> = prefix
         .iter()
         .map(|(s, f)| Job {
             seed: *s,
             flavor: f.clone(),
+            dense,
             ..Default::default()
         })
         .collect();
@@ -54,12 +58,17 @@ fn to_jobs(prefix: &[(u64, String)], spec: &RunSpec) -> Vec<Job> {
         want_spec: true,
         spec: Some(spec.clone()),
         want_trace: false,
+        dense,
     });
     jobs
 }
 
 /// Execute prefix + spec in a fresh worker; Some(record of the last job) if it shows a
 /// violation of the wanted kind.
+thread_local! {
+    static DENSE: std::cell::Cell<bool> = const { std::cell::Cell::new(false) };
+}
+
 fn fails(
     sock: &str,
     prefix: &[(u64, String)],
@@ -67,7 +76,7 @@ fn fails(
     class: &str,
     method: &str,
 ) -> Option<RunRecord> {
-    let jobs = to_jobs(prefix, spec);
+    let jobs = to_jobs(prefix, spec, DENSE.with(|d| d.get()));
     let res = run_batch(sock, &jobs, Duration::from_secs(45));
     let last = res.records.into_iter().last()??;
     if last.violations.iter().any(|v| same_kind(v, class, method)) {
@@ -180,6 +189,7 @@ pub fn minimise_and_write(
     rec: &RunRecord,
     nondet_window: bool,
 ) -> Option<String> {
+    DENSE.with(|d| d.set(failing.dense));
     let v0 = rec.violations.first()?.clone();
     let class = v0.class.clone();
     let method = method_of(&v0);
@@ -391,6 +401,7 @@ pub fn minimise_and_write(
             "trials": trials,
         }),
         repo_fingerprint: fingerprint(),
+        dense: failing.dense,
         note: format!(
             "final: {} ops on {} threads, {} crashes, {} explicit decisions, {} history runs before it{}",
             spec.total_ops(),
@@ -433,6 +444,7 @@ pub fn write_probe_replay(probe: (bool, bool)) -> String {
         spec: None,
         minimised_from: serde_json::json!({}),
         repo_fingerprint: fingerprint(),
+        dense: false,
         note: "auto-trait probe compiled against the current tree".into(),
     };
     let _ = std::fs::create_dir_all("/verif/replays");
@@ -483,7 +495,7 @@ pub fn replay_file(path: &str) -> i32 {
         );
     }
     let lanes = crate::pool::Lanes::start(1, false);
-    let jobs = to_jobs(&rp.batch_prefix, &spec);
+    let jobs = to_jobs(&rp.batch_prefix, &spec, rp.dense);
     let res = run_batch(&lanes.all(), &jobs, Duration::from_secs(60));
     let last = match res.records.into_iter().last().flatten() {
         Some(r) => r,
